@@ -26,3 +26,4 @@ def check(ctx):
     conv.clients_use_raising_entry(ctx, "emu_base.math.krylov_exp.krylov_exp", 5)
     conv.local_flag_guard(ctx, "emu_base.math.double_krylov.lanczos", {"tolerance"})
     ctx.floor("CONV-honest", 3)
+    conv.no_flag_rewrite(ctx, ("emu_base.math.krylov_exp", "emu_base.math.double_krylov", "emu_sv.time_evolution", "emu_mps.solver_utils"), {"converged", "happy_breakdown"})
